@@ -111,13 +111,14 @@ class Sem(TL.Eval):
     def fold(self, f):
         """see target_lang.Eval.fold: what the step evaluates before its accumulator (for
         all rounds, outermost first), then the initial value, then what it evaluates after"""
+        f = TL.normal_run(f)
         marker = ("acc", tagstr(f.acc.tag))
         saved_abs, saved_execs = self.abstract, self.execs
         pos = {}
         self.execs = _Timed(self)
 
         def abstract2(o):
-            if o is f.acc:
+            if o is f.acc or (isinstance(o, Opaque) and o.tag == f.acc.tag):
                 if "i" in pos:
                     raise TL.NotInFragment("fold step evaluates its accumulator twice")
                 pos["i"] = len(self.execs)
